@@ -8,12 +8,15 @@
 //   C15  BuildKey/BuildValue codec (c15.cpp)              replay spec: <desc>[|<desc>]  or  kind-tags
 //
 // --seed is accepted and ignored: the enumeration order is fixed (simplest first) and complete.
+#include <sys/mman.h>
+#include <sys/wait.h>
 #include "enumx.h"
 
 #include <sys/stat.h>
 #include <unistd.h>
 
 std::string enumx::scratchDir;
+char* enumx::progressPage = nullptr;
 
 static void cleanup() {
   if (enumx::scratchDir.empty()) return;
@@ -21,9 +24,31 @@ static void cleanup() {
   (void)system(cmd.c_str());
 }
 
+static int realMain(vj::Args& args);
+
 int main(int argc, char** argv) {
   vj::Args args;
   args.parse(argc, argv);
+  // Run in a child: a crash of the code under test (e.g. a decoder returning a
+  // wild length) is a verdict, not a harness error.
+  enumx::progressPage = (char*)mmap(nullptr, 4096, PROT_READ | PROT_WRITE, MAP_SHARED | MAP_ANONYMOUS, -1, 0);
+  if (enumx::progressPage == MAP_FAILED) enumx::progressPage = nullptr;
+  pid_t pid = fork();
+  if (pid == 0) exit(realMain(args));
+  int st = 0;
+  waitpid(pid, &st, 0);
+  if (WIFEXITED(st)) return WEXITSTATUS(st);
+  vj::Result res;
+  std::string cur = enumx::progressPage ? enumx::progressPage : "";
+  res.count("evaluations");
+  res.count("distinct_nontrivial");
+  res.exhaustive = false;
+  res.violate(args.prop + ".crash", "the process crashed (signal " + std::to_string(WTERMSIG(st)) + ") while handling: " + cur, "crash:" + cur);
+  res.write(args.out);
+  return 1;
+}
+
+static int realMain(vj::Args& args) {
   if (args.nshards < 1 || args.shard < 0 || args.shard >= args.nshards) { fprintf(stderr, "bad --shard/--nshards\n"); return 3; }
   enumx::scratchDir = "/dev/shm/verif-enumx-" + std::to_string(getpid());
   vj::Result res;
